@@ -444,6 +444,36 @@ def check_population_object_read_again(h: Harness):
                 h.fail("Population.__iter__", "not-the-given-individuals", f"{sname}.apply on a Population object yielded an individual that is not a member", replay)
 
 
+def check_large_targets(h: Harness):
+    """target sizes well beyond the small exhaustive tier (258, 300, 513, 1000: what population_size=300 hands a 90 % crossover slice):
+    every step yields exactly what it is asked for"""
+    from geneticengine.algorithms.gp.operators.crossover import GenericCrossoverStep
+    from geneticengine.algorithms.gp.operators.elitism import ElitismStep
+    from geneticengine.algorithms.gp.operators.mutation import GenericMutationStep
+    from geneticengine.algorithms.gp.operators.novelty import NoveltyStep
+    from geneticengine.algorithms.gp.operators.selection import TournamentSelection
+    from geneticengine.algorithms.gp.operators.combinators import SequenceStep
+    rng = h.rng
+    rep = StubRep(1)
+    problem = sc.make_problem([False])
+    steps = [("crossover(0)", lambda: GenericCrossoverStep(0.0)), ("crossover(1)", lambda: GenericCrossoverStep(1.0)), ("crossover(0.5)", lambda: GenericCrossoverStep(0.5)),
+             ("mutation(0.5)", lambda: GenericMutationStep(0.5)), ("tournament(3)", lambda: TournamentSelection(3, with_replacement=True)), ("elitism", ElitismStep),
+             ("novelty", NoveltyStep), ("default", default_generic_programming_step),
+             ("tournament;crossover(1);mutation(1)", lambda: SequenceStep(TournamentSelection(2, with_replacement=True), GenericCrossoverStep(1.0), GenericMutationStep(1.0)))]
+    for k in (256, 257, 258, 259, 300, 301, 512, 513, 1000) if not h.thorough else tuple(range(250, 270)) + (300, 301, 400, 512, 513, 1000, 1001, 2048):
+        inds = [Individual((i, rng.randint(0, 9), (rng.randint(0, 9),)), rep) for i in range(k)]
+        for sname, mk in steps:
+            res = sc.run_step(mk(), problem, rep, NativeRandomSource(rng.randrange(10**6)), list(inds), k)
+            h.count("large-targets")
+            h.seen(f"large-target:{sname}:{k}", nontrivial=True)
+            replay = {"step": sname, "n": k, "k": k}
+            if isinstance(res, str):
+                h.fail(f"{sname}.apply", "raises", f"{sname}.apply on {k} individuals, target_size={k}: {res}", replay)
+                continue
+            h.holds(f"{sname}.apply", "wrong-count", ["prop_count", k, len(res)],
+                    f"{sname}.apply on a list of {k} individuals, target_size={k}, yielded {len(res)} individuals", replay, nontrivial=True)
+
+
 def check_cooperative_gp(h: Harness):
     """CooperativeGP evolves two species in turn, each by a genetic-programming run with ITS configured population size: every
     generation of species k's runs -- what the step receives, what it is asked for and what it yields -- has population{k}_size
@@ -785,6 +815,7 @@ def run(h: Harness):
     check_initialisers(h)
     check_population_sizes(h)
     check_population_object_read_again(h)
+    check_large_targets(h)
     check_cooperative_gp(h)
     check_time_budgets(h)
     check_gp_stub(h)
